@@ -5,8 +5,15 @@
 //   rt   TaggedRT (all members + runtime provides_*), by reference
 //   fun  alpaqa::FunctionalProblem (std::function members; mask bits 7..10 only)
 //   dl   alpaqa::dl::DLProblem loading harness/c04_plugin.cpp ($C04_PLUGIN)
-//   cas  alpaqa::CasADiProblem loading /repo/test/outer/rosenbrock_functions_test.c ($C04_CASADI)
+//   cas  alpaqa::CasADiProblem loading /repo/test/outer/rosenbrock_functions_test.c ($C04_CASADI),
+//        harness/c04_casadi_poly.c ($C04_CASADI_POLY: n = 3, m = 2; $C04_CASADI_POLY0: n = 3, m = 0)
 // One op per line, one output line per op: `<values> ; <call log>`.
+//   ev  fn variant <data>   fresh problem object, one call
+//   sq0 fn variant <data>   fresh problem object that is KEPT; first call of a sequence
+//   sqn fn variant <data>   next call on the kept object (same variant / mask / n / m / D; new x, tables,
+//                           y, Σ, v); the work vectors are the ones of the previous calls (not re-initialised)
+//   cas2 module new x param y Σ lb ub scale v   every function CasADiProblem provides, through
+//                           TypeErasedProblem; new = 0 re-uses the module's kept object and work vectors
 #include "proto.hpp"
 #include "c04_problem.hpp"
 #include <alpaqa/problem/functional-problem.hpp>
@@ -16,7 +23,9 @@
 #endif
 #if C04_WITH_CASADI
 #include <alpaqa/casadi/CasADiProblem.hpp>
+#include <alpaqa/problem/sparsity-conversions.hpp>
 #endif
+#include <map>
 #include <cstdlib>
 #include <memory>
 
@@ -102,6 +111,235 @@ static std::string provides_bits(const TEP &te) {
     return s;
 }
 
+/// the kept object of a call sequence (`sq0` / `sqn`)
+struct Seq {
+    Data d;
+    vec x, gf, g, J, Hf, HG, lb, ub, wn, wm;
+    Holder h;
+    std::string variant;
+    unsigned mask = 0;
+    long n = 0, m = 0;
+    bool valid = false;
+    std::vector<std::string> log;
+    void point(real_t f0, unsigned mask_flags) {
+        d.n = n; d.m = m; d.x = x.data(); d.f0 = f0; d.gf = gf.data(); d.g = g.data(); d.J = J.data();
+        d.Hf = Hf.data(); d.HG = HG.data(); d.lb = lb.data(); d.ub = ub.data();
+        d.mask = mask_flags;
+        d.log  = &log;
+    }
+};
+static Seq seq;
+
+#if C04_WITH_CASADI
+namespace sp = alpaqa::sparsity;
+using CasP  = alpaqa::CasADiProblem<config_t>;
+
+static std::string clean(std::string s) {
+    for (auto &c : s)
+        if (c == ' ' || c == '|' || c == '\n')
+            c = '_';
+    return s.substr(0, 160);
+}
+
+/// evaluates `f` and returns its string; an exception becomes `exc:<kind>:<message>`
+template <class F>
+static std::string guarded(F &&f) {
+    try {
+        return f();
+    } catch (alpaqa::not_implemented_error &e) {
+        return std::string("exc:notimpl:") + clean(e.what());
+    } catch (std::invalid_argument &e) {
+        return std::string("exc:invalid_argument:") + clean(e.what());
+    } catch (std::logic_error &e) {
+        return std::string("exc:logic_error:") + clean(e.what());
+    } catch (std::exception &e) {
+        return std::string("exc:other:") + clean(e.what());
+    }
+}
+
+static const char *sym_name(sp::Symmetry s) {
+    return s == sp::Symmetry::Unsymmetric ? "U" : s == sp::Symmetry::Upper ? "up" : "lo";
+}
+
+/// `D r c sym` | `C r c sym nnz outer… inner…` | `O r c sym nnz first rows… cols…`
+static std::string fmt_sparsity(const alpaqa::Sparsity<config_t> &s) {
+    return std::visit(
+        [](const auto &v) -> std::string {
+            using V = std::remove_cvref_t<decltype(v)>;
+            std::string o;
+            if constexpr (std::is_same_v<V, sp::Dense<config_t>>) {
+                o = "D " + std::to_string(v.rows) + " " + std::to_string(v.cols) + " " + sym_name(v.symmetry);
+            } else if constexpr (requires { v.outer_ptr; }) {
+                o = "C " + std::to_string(v.rows) + " " + std::to_string(v.cols) + " " + sym_name(v.symmetry) +
+                    " " + std::to_string(v.nnz());
+                for (Eigen::Index i = 0; i < v.outer_ptr.size(); ++i)
+                    o += " " + std::to_string((long long)v.outer_ptr(i));
+                for (Eigen::Index i = 0; i < v.inner_idx.size(); ++i)
+                    o += " " + std::to_string((long long)v.inner_idx(i));
+            } else {
+                o = "O " + std::to_string(v.rows) + " " + std::to_string(v.cols) + " " + sym_name(v.symmetry) +
+                    " " + std::to_string(v.nnz()) + " " + std::to_string((long long)v.first_index);
+                for (Eigen::Index i = 0; i < v.row_indices.size(); ++i)
+                    o += " " + std::to_string((long long)v.row_indices(i));
+                for (Eigen::Index i = 0; i < v.col_indices.size(); ++i)
+                    o += " " + std::to_string((long long)v.col_indices(i));
+            }
+            return o;
+        },
+        s.value);
+}
+
+/// a matrix-valued function: `sp=<pattern> ; vals=<values as written> ; dense=<alpaqa's conversion to
+/// dense, column-major> ; coo=<alpaqa's conversion to COO: pattern + values>`
+template <class GetSp, class Eval>
+static std::string matrix_section(GetSp &&get_sp, Eval &&eval) {
+    std::string o = "sp=" + guarded([&] { return fmt_sparsity(get_sp()); });
+    o += " ; vals=" + guarded([&] {
+             auto s = get_sp();
+             vec vals = nanvec(sp::get_nnz(s));
+             eval(vals);
+             return vp::fmtv(vals);
+         });
+    o += " ; dense=" + guarded([&] {
+             auto s = get_sp();
+             sp::SparsityConverter<alpaqa::Sparsity<config_t>, sp::Dense<config_t>> cv{s};
+             const auto &ds = cv.get_sparsity();
+             vec out = nanvec(ds.rows * ds.cols);
+             cv.convert_values([&](rvec vals) { vals.setConstant(alpaqa::NaN<config_t>); eval(vals); }, out);
+             return std::string(sym_name(ds.symmetry)) + " " + vp::fmtv(out);
+         });
+    o += " ; coo=" + guarded([&] {
+             auto s = get_sp();
+             using COO = sp::SparseCOO<config_t, int>;
+             sp::SparsityConverter<alpaqa::Sparsity<config_t>, COO> cv{s};
+             const COO &cs = cv.get_sparsity();
+             vec out = nanvec(cs.nnz());
+             cv.convert_values([&](rvec vals) { vals.setConstant(alpaqa::NaN<config_t>); eval(vals); }, out);
+             return fmt_sparsity(alpaqa::Sparsity<config_t>{cs}) + " v " + vp::fmtv(out);
+         });
+    return o;
+}
+
+struct CasKept {
+    std::unique_ptr<CasP> p;
+    vec wn, wm;
+};
+static std::map<std::string, CasKept> cas_kept;
+
+/// every function the CasADi problem class provides, each in its own section `name=<…>` joined by ` | `
+static std::string casadi_all(const std::string &mod, bool fresh, const vec &x, const vec &param, const vec &y,
+                              const vec &S, const vec &lb, const vec &ub, real_t scale, const vec &v) {
+    const char *env = mod == "rosen" ? "C04_CASADI" : mod == "poly" ? "C04_CASADI_POLY"
+                      : mod == "poly0" ? "C04_CASADI_POLY0" : nullptr;
+    const char *so  = env ? std::getenv(env) : nullptr;
+    if (!so)
+        return "bad-op";
+    auto &k = cas_kept[mod];
+    if (fresh || !k.p) {
+        k.p  = std::make_unique<CasP>(so);
+        k.wn = nanvec(k.p->n);
+        k.wm = nanvec(k.p->m);
+    }
+    CasP &p        = *k.p;
+    p.param        = param;
+    p.D.lowerbound = lb;
+    p.D.upperbound = ub;
+    TEP te{&p};
+    long n = te.get_n(), m = te.get_m();
+    std::string o = "dims=" + std::to_string(n) + " " + std::to_string(m) + " " + std::to_string(p.param.size());
+    auto sec = [&](const char *name, auto &&f) { o += std::string(" | ") + name + "=" + guarded(f); };
+    sec("provides", [&] { return provides_bits(te) + (te.provides_eval_jac_g() ? "1" : "0"); });
+    sec("f", [&] { return vp::f2h(te.eval_f(x)); });
+    sec("grad_f", [&] { vec a = nanvec(n); te.eval_grad_f(x, a); return vp::fmtv(a); });
+    sec("f_grad_f", [&] { vec a = nanvec(n); real_t f = te.eval_f_grad_f(x, a); return vp::f2h(f) + " " + vp::fmtv(a); });
+    sec("g", [&] { vec a = nanvec(m); te.eval_g(x, a); return vp::fmtv(a); });
+    sec("grad_g_prod", [&] { vec a = nanvec(n); te.eval_grad_g_prod(x, y, a); return vp::fmtv(a); });
+    sec("f_g", [&] { vec a = nanvec(m); real_t f = te.eval_f_g(x, a); return vp::f2h(f) + " " + vp::fmtv(a); });
+    sec("gfggp", [&] {
+        vec a = nanvec(n), b = nanvec(n);
+        te.eval_grad_f_grad_g_prod(x, y, a, b);
+        return vp::fmtv(a) + " " + vp::fmtv(b);
+    });
+    sec("grad_L", [&] { vec a = nanvec(n); te.eval_grad_L(x, y, a, k.wn); return vp::fmtv(a); });
+    sec("psi", [&] { vec yh = nanvec(m); real_t r = te.eval_ψ(x, y, S, yh); return vp::f2h(r) + " " + vp::fmtv(yh); });
+    sec("grad_psi", [&] { vec a = nanvec(n); te.eval_grad_ψ(x, y, S, a, k.wn, k.wm); return vp::fmtv(a); });
+    sec("psi_grad_psi", [&] {
+        vec a = nanvec(n);
+        real_t r = te.eval_ψ_grad_ψ(x, y, S, a, k.wn, k.wm);
+        return vp::f2h(r) + " " + vp::fmtv(a);
+    });
+    sec("hess_L_prod", [&] { vec a = nanvec(n); te.eval_hess_L_prod(x, y, scale, v, a); return vp::fmtv(a); });
+    sec("hess_psi_prod", [&] { vec a = nanvec(n); te.eval_hess_ψ_prod(x, y, S, scale, v, a); return vp::fmtv(a); });
+    o += " | jac_g=" + matrix_section([&] { return te.get_jac_g_sparsity(); },
+                                      [&](rvec vals) { te.eval_jac_g(x, vals); });
+    o += " | hess_L=" + matrix_section([&] { return te.get_hess_L_sparsity(); },
+                                       [&](rvec vals) { te.eval_hess_L(x, y, scale, vals); });
+    o += " | hess_psi=" + matrix_section([&] { return te.get_hess_ψ_sparsity(); },
+                                         [&](rvec vals) { te.eval_hess_ψ(x, y, S, scale, vals); });
+    return o;
+}
+#endif
+
+/// one call of interface function `fn` on `te`; outputs are NaN-prefilled, the work vectors are the caller's
+static std::string eval_fn(const TEP &te, const std::string &fn, long n, long m, const vec &x, const vec &y,
+                           const vec &S, const vec &g, real_t scale, const vec &v, vec &wn, vec &wm) {
+    std::string out;
+    if (fn == "psi") {
+        vec yh = nanvec(m);
+        real_t p = te.eval_ψ(x, y, S, yh);
+        out = vp::f2h(p) + " " + vp::fmtv(yh);
+    } else if (fn == "grad_psi") {
+        vec o = nanvec(n);
+        te.eval_grad_ψ(x, y, S, o, wn, wm);
+        out = vp::fmtv(o);
+    } else if (fn == "psi_grad_psi") {
+        vec o = nanvec(n);
+        real_t p = te.eval_ψ_grad_ψ(x, y, S, o, wn, wm);
+        out = vp::f2h(p) + " " + vp::fmtv(o);
+    } else if (fn == "grad_L") {
+        vec o = nanvec(n);
+        te.eval_grad_L(x, y, o, wn);
+        out = vp::fmtv(o);
+    } else if (fn == "f_g") {
+        vec o = nanvec(m);
+        real_t p = te.eval_f_g(x, o);
+        out = vp::f2h(p) + " " + vp::fmtv(o);
+    } else if (fn == "f_grad_f") {
+        vec o = nanvec(n);
+        real_t p = te.eval_f_grad_f(x, o);
+        out = vp::f2h(p) + " " + vp::fmtv(o);
+    } else if (fn == "gfggp") {
+        vec a = nanvec(n), b = nanvec(n);
+        te.eval_grad_f_grad_g_prod(x, y, a, b);
+        out = vp::fmtv(a) + " " + vp::fmtv(b);
+    } else if (fn == "calc") {
+        vec gy = g;
+        real_t p = te.calc_ŷ_dᵀŷ(gy, y, S);
+        out = vp::f2h(p) + " " + vp::fmtv(gy);
+    } else if (fn == "hess_L_prod") {
+        vec o = nanvec(n);
+        te.eval_hess_L_prod(x, y, scale, v, o);
+        out = vp::fmtv(o);
+    } else if (fn == "hess_psi_prod") {
+        vec o = nanvec(n);
+        te.eval_hess_ψ_prod(x, y, S, scale, v, o);
+        out = vp::fmtv(o);
+    } else if (fn == "hess_L") {
+        vec o = nanvec(n * n);
+        te.eval_hess_L(x, y, scale, o);
+        out = vp::fmtv(o);
+    } else if (fn == "hess_psi") {
+        vec o = nanvec(n * n);
+        te.eval_hess_ψ(x, y, S, scale, o);
+        out = vp::fmtv(o);
+    } else if (fn == "provides") {
+        out = provides_bits(te);
+    } else {
+        out = "bad-fn";
+    }
+    return out;
+}
+
 int main() {
     Registry reg;
     register_all(reg);
@@ -110,13 +348,14 @@ int main() {
         vp::Toks t(line);
         std::string op = t.tok();
         std::vector<std::string> log;
+        std::vector<std::string> *cur_log = &log;
         try {
             if (op == "masks") { // which compile-time masks this binary has
                 std::string s;
                 for (auto &kv : reg)
                     s += (s.empty() ? "" : " ") + std::to_string(kv.first);
                 std::cout << s << '\n';
-            } else if (op == "ev") {
+            } else if (op == "ev" || op == "sq0" || op == "sqn") {
                 std::string fn = t.tok(), variant = t.tok();
                 unsigned mask = (unsigned)t.nat();
                 long n = t.nat(), m = t.nat();
@@ -126,106 +365,65 @@ int main() {
                     S = t.vec(), lb = t.vec(), ub = t.vec();
                 real_t scale = t.flt();
                 vec v = t.vec();
-                Data d;
-                d.n = n; d.m = m; d.x = x.data(); d.f0 = f0; d.gf = gf.data(); d.g = g.data();
-                d.J = J.data(); d.Hf = Hf.data(); d.HG = HG.data(); d.lb = lb.data(); d.ub = ub.data();
-                d.mask = mask | ((S.size() == 1 && m != 1) ? (1u << 16) : 0u);
-                d.log  = &log;
-                Box D  = Box::from_lower_upper(lb, ub);
-                Holder h = build(variant, &d, D, reg);
-                const TEP &te = *h.te;
-                log.clear();
-                std::string out;
-                vec wn = nanvec(n), wm = nanvec(m);
-                if (fn == "psi") {
-                    vec yh = nanvec(m);
-                    real_t p = te.eval_ψ(x, y, S, yh);
-                    out = vp::f2h(p) + " " + vp::fmtv(yh);
-                } else if (fn == "grad_psi") {
-                    vec o = nanvec(n);
-                    te.eval_grad_ψ(x, y, S, o, wn, wm);
-                    out = vp::fmtv(o);
-                } else if (fn == "psi_grad_psi") {
-                    vec o = nanvec(n);
-                    real_t p = te.eval_ψ_grad_ψ(x, y, S, o, wn, wm);
-                    out = vp::f2h(p) + " " + vp::fmtv(o);
-                } else if (fn == "grad_L") {
-                    vec o = nanvec(n);
-                    te.eval_grad_L(x, y, o, wn);
-                    out = vp::fmtv(o);
-                } else if (fn == "f_g") {
-                    vec o = nanvec(m);
-                    real_t p = te.eval_f_g(x, o);
-                    out = vp::f2h(p) + " " + vp::fmtv(o);
-                } else if (fn == "f_grad_f") {
-                    vec o = nanvec(n);
-                    real_t p = te.eval_f_grad_f(x, o);
-                    out = vp::f2h(p) + " " + vp::fmtv(o);
-                } else if (fn == "gfggp") {
-                    vec a = nanvec(n), b = nanvec(n);
-                    te.eval_grad_f_grad_g_prod(x, y, a, b);
-                    out = vp::fmtv(a) + " " + vp::fmtv(b);
-                } else if (fn == "calc") {
-                    vec gy = g;
-                    real_t p = te.calc_ŷ_dᵀŷ(gy, y, S);
-                    out = vp::f2h(p) + " " + vp::fmtv(gy);
-                } else if (fn == "hess_L_prod") {
-                    vec o = nanvec(n);
-                    te.eval_hess_L_prod(x, y, scale, v, o);
-                    out = vp::fmtv(o);
-                } else if (fn == "hess_psi_prod") {
-                    vec o = nanvec(n);
-                    te.eval_hess_ψ_prod(x, y, S, scale, v, o);
-                    out = vp::fmtv(o);
-                } else if (fn == "hess_L") {
-                    vec o = nanvec(n * n);
-                    te.eval_hess_L(x, y, scale, o);
-                    out = vp::fmtv(o);
-                } else if (fn == "hess_psi") {
-                    vec o = nanvec(n * n);
-                    te.eval_hess_ψ(x, y, S, scale, o);
-                    out = vp::fmtv(o);
-                } else if (fn == "provides") {
-                    out = provides_bits(te);
+                unsigned sflag = (S.size() == 1 && m != 1) ? (1u << 16) : 0u;
+                if (op == "ev") {
+                    Data d;
+                    d.n = n; d.m = m; d.x = x.data(); d.f0 = f0; d.gf = gf.data(); d.g = g.data();
+                    d.J = J.data(); d.Hf = Hf.data(); d.HG = HG.data(); d.lb = lb.data(); d.ub = ub.data();
+                    d.mask = mask | sflag;
+                    d.log  = &log;
+                    Box D  = Box::from_lower_upper(lb, ub);
+                    Holder h = build(variant, &d, D, reg);
+                    const TEP &te = *h.te;
+                    log.clear();
+                    vec wn = nanvec(n), wm = nanvec(m);
+                    std::string out = eval_fn(te, fn, n, m, x, y, S, g, scale, v, wn, wm);
+                    std::cout << out << " ; " << join(log) << '\n';
                 } else {
-                    out = "bad-fn";
+                    Seq &q = seq;
+                    if (op == "sq0") {
+                        q.h = Holder{}; // the previous sequence's object goes first (it points into q)
+                        q.variant = variant; q.mask = mask; q.n = n; q.m = m;
+                        q.x = x; q.gf = gf; q.g = g; q.J = J; q.Hf = Hf; q.HG = HG; q.lb = lb; q.ub = ub;
+                        q.wn = nanvec(n); q.wm = nanvec(m);
+                        q.point(f0, mask | sflag);
+                        q.h     = build(variant, &q.d, Box::from_lower_upper(lb, ub), reg);
+                        q.valid = true;
+                    } else {
+                        bool same = q.valid && q.variant == variant && q.mask == mask && q.n == n && q.m == m &&
+                                    x.size() == n && gf.size() == q.gf.size() && g.size() == q.g.size() &&
+                                    J.size() == q.J.size() && Hf.size() == q.Hf.size() &&
+                                    HG.size() == q.HG.size() && vp::fmtv(lb) == vp::fmtv(q.lb) &&
+                                    vp::fmtv(ub) == vp::fmtv(q.ub);
+                        if (!same) {
+                            std::cout << "bad-op\n";
+                            continue;
+                        }
+                        // the kept object sees new tables ("the functions evaluated at another point")
+                        q.x = x; q.gf = gf; q.g = g; q.J = J; q.Hf = Hf; q.HG = HG;
+                        q.point(f0, mask | sflag);
+                    }
+                    q.log.clear();
+                    cur_log = &q.log;
+                    std::string out = eval_fn(*q.h.te, fn, n, m, x, y, S, g, scale, v, q.wn, q.wm);
+                    std::cout << out << " ; " << join(q.log) << '\n';
                 }
-                std::cout << out << " ; " << join(log) << '\n';
             }
 #if C04_WITH_CASADI
-            else if (op == "cas") {
-                // the shipped CasADi-generated module: user-supplied ψ / ψ_grad_ψ / grad_L next to
-                // f, ∇f, g, jac_g of the same module (values only; no bit-exact model)
-                const char *so = std::getenv("C04_CASADI");
-                if (!so)
-                    throw std::runtime_error("C04_CASADI not set");
+            else if (op == "cas2") {
+                std::string mod = t.tok();
+                bool fresh      = t.nat() != 0;
                 vec x = t.vec(), param = t.vec(), y = t.vec(), S = t.vec(), lb = t.vec(), ub = t.vec();
-                alpaqa::CasADiProblem<config_t> p{so};
-                p.param        = param;
-                p.D.lowerbound = lb;
-                p.D.upperbound = ub;
-                TEP te{&p};
-                long n = te.get_n(), m = te.get_m();
-                vec gf(n), g(m), Jv(n * m), yh(m), gp(n), gp2(n), gl(n), wn(n), wm(m);
-                real_t f = te.eval_f(x);
-                te.eval_grad_f(x, gf);
-                te.eval_g(x, g);
-                te.eval_jac_g(x, Jv);
-                real_t psi = te.eval_ψ(x, y, S, yh);
-                te.eval_grad_ψ(x, y, S, gp, wn, wm);
-                real_t psi2 = te.eval_ψ_grad_ψ(x, y, S, gp2, wn, wm);
-                te.eval_grad_L(x, y, gl, wn);
-                std::cout << n << ' ' << m << ' ' << vp::f2h(f) << ' ' << vp::fmtv(gf) << ' ' << vp::fmtv(g)
-                          << ' ' << vp::fmtv(Jv) << ' ' << vp::f2h(psi) << ' ' << vp::fmtv(yh) << ' '
-                          << vp::fmtv(gp) << ' ' << vp::f2h(psi2) << ' ' << vp::fmtv(gp2) << ' '
-                          << vp::fmtv(gl) << ' ' << provides_bits(te) << '\n';
+                real_t scale = t.flt();
+                vec v        = t.vec();
+                std::cout << casadi_all(mod, fresh, x, param, y, S, lb, ub, scale, v) << '\n';
             }
 #endif
             else {
                 std::cout << "bad-op\n";
             }
         } catch (alpaqa::not_implemented_error &e) {
-            std::cout << "notimpl ; " << join(log) << '\n';
+            std::cout << "notimpl ; " << join(*cur_log) << '\n';
         } catch (std::exception &e) {
             std::cout << "exception " << e.what() << '\n';
         }
